@@ -93,6 +93,7 @@ func c02Q2(r *core.R) {
 			return true
 		})
 	}
+	nCarried := 0
 	// receiver and arguments evaluated at the go statement (`go f(args)`, `go func(params){...}(args)`)
 	{
 		var exprs []ast.Expr
@@ -102,6 +103,34 @@ func c02Q2(r *core.R) {
 		exprs = append(exprs, wg.stmt.Call.Args...)
 		for _, e := range exprs {
 			if !isDD(info.TypeOf(e)) {
+				// a struct that carries what a closure would capture: its fields of the per-worker decoder type
+				if cst := c02CarrierStruct(info.TypeOf(e)); cst != nil {
+					for i := 0; i < cst.NumFields(); i++ {
+						cf := cst.Field(i)
+						if !isDD(cf.Type()) {
+							continue
+						}
+						nCarried++
+						co, _ := objOf(info, e).(*types.Var)
+						inits, ok := m.fieldInits(e, 0, cf, map[types.Object]bool{}, 0)
+						fresh := ok && len(inits) > 0
+						for _, in := range inits {
+							// fresh, and evaluated once per worker (not in a template built before the loop and copied)
+							if !c02FreshAlloc(m, in, 0) || !c02PerIterationPos(m, wg.loopStmt, in.Pos(), 0) {
+								fresh = false
+							}
+						}
+						carrierFresh := c02CarrierFresh(m, wg, e, co)
+						switch {
+						case !fresh:
+							r.Bad(c, e.Pos(), "the decoder value in field %s of `%s` handed to the worker goroutines is not a fresh allocation per worker: all workers share one decoder and its cached iterators, buffers and object slice", cf.Name(), src(r.P.Fset, e))
+						case !carrierFresh:
+							r.Bad(c, e.Pos(), "`%s`, which carries the per-worker decoder to the goroutine, is not a fresh value made in the iteration of the spawning loop: all workers share it", src(r.P.Fset, e))
+						default:
+							r.OK(c, e.Pos(), "`%s` is built per iteration of the spawning loop and its field %s is a fresh decoder value: every worker has its own", src(r.P.Fset, e), cf.Name())
+						}
+					}
+				}
 				continue
 			}
 			if o, ok := objOf(info, e).(*types.Var); ok && !o.IsField() {
@@ -132,7 +161,7 @@ func c02Q2(r *core.R) {
 		}
 		return true
 	})
-	if len(flows) == 0 && nOwn == 0 {
+	if len(flows) == 0 && nOwn == 0 && nCarried == 0 {
 		r.Anchor("per-worker decoder value handed to (or made by) the worker goroutine")
 		return
 	}
@@ -353,3 +382,61 @@ func c02Q3(r *core.R) {
 }
 
 var _ = core.Discharged
+
+// c02CarrierFresh: the struct value e that carries captured state to the worker goroutine is one per worker. A literal
+// evaluated at the go statement is; a variable of struct type (not a pointer) declared per iteration of the spawning
+// loop is a value of its own whatever it is assigned; a pointer variable must be declared per iteration and have a
+// single definition that is a fresh allocation.
+func c02CarrierFresh(m *pbfModel, wg *goSite, e ast.Expr, co *types.Var) bool {
+	if co == nil {
+		_, lit := ast.Unparen(pbfStripAddr(e)).(*ast.CompositeLit)
+		body := pbfLoopBody(wg.loopStmt)
+		return lit && body != nil && body.Pos() < e.Pos() && e.End() <= body.End()
+	}
+	if co.IsField() || !pbfPerIterationStmt(co, wg.loopStmt, m, true) {
+		return false
+	}
+	if _, ptr := co.Type().Underlying().(*types.Pointer); !ptr {
+		return true
+	}
+	defs := m.defsOf(co)
+	return len(defs) == 1 && defs[0].kind == "assign" && c02FreshAlloc(m, defs[0].e, 0)
+}
+
+// c02PerIterationPos: what is written at pos is evaluated in every iteration of loop: it lies in the loop body, or in a
+// function (not the one holding the loop) all of whose static call sites are evaluated in every iteration.
+func c02PerIterationPos(m *pbfModel, loop ast.Stmt, pos token.Pos, depth int) bool {
+	body := pbfLoopBody(loop)
+	if body == nil || depth > 4 {
+		return false
+	}
+	if body.Pos() < pos && pos < body.End() {
+		return true
+	}
+	fi := m.funcAt(pos)
+	if fi == nil || (fi.Decl.Pos() <= loop.Pos() && loop.End() <= fi.Decl.End()) {
+		return false
+	}
+	sites := m.sites[fi.Obj]
+	for _, s := range sites {
+		if !c02PerIterationPos(m, loop, s.call.Pos(), depth+1) {
+			return false
+		}
+	}
+	return len(sites) > 0
+}
+
+// c02CarrierStruct returns the struct type behind t when t is a (pointer to a) named struct type.
+func c02CarrierStruct(t types.Type) *types.Struct {
+	if t == nil {
+		return nil
+	}
+	if pt, ok := t.(*types.Pointer); ok {
+		t = pt.Elem()
+	}
+	if _, ok := t.(*types.Named); !ok {
+		return nil
+	}
+	st, _ := t.Underlying().(*types.Struct)
+	return st
+}
